@@ -1,13 +1,17 @@
 //! C10 — `SpectrumProcessor::process` and `spectrum::deisotope`
 //!   process max deiso u32(minmz) level centroid charge? [n (u32 mz, u32 int)…] -> [k (u32 mass, u32 int)…] u32(tic) | panic
 //!   deiso   maxz u32(ppm) u32(minmz) [n (u32 mz, u32 int)…]                    -> [n (u32 mz, u32 int, z?, env?)…]
+//!   procfull max deiso u32(minmz) <raw> -> level h:id file_id u32(sst) u32(iit) [np precursor…] [k (mass int)…] u32(tic) | panic
+//!   procims  max deiso u32(minmz) <raw> -> level h:id file_id u32(sst) u32(iit) [np precursor…] [k (mass int mob)…] u32(tic) | panic
+//!     <raw>      = file_id level h:id centroid u32(sst) u32(iit) u32(raw_tic) [np precursor…] [n (mz int)…] mob?
+//!     precursor  = u32(mz) int? charge? ref? win? iim?     win = kind(0 ppm, 1 pct, 2 da) u32 u32     mob? = 0 | 1 [m u32…]
 //! (`x?` is `0` or `1 x`; floats are bit patterns.)
 use super::Info;
 use crate::proto::{Case, Out, Rng, Tier, Toks};
-use sage_core::mass::NEUTRON;
+use sage_core::mass::{Tolerance, NEUTRON};
 use sage_core::spectrum::{deisotope, Precursor, RawSpectrum, Representation, SpectrumProcessor};
 
-pub const OPS: &[&str] = &["process", "deiso"];
+pub const OPS: &[&str] = &["process", "deiso", "procfull", "procims"];
 pub const INFO: Info = Info {
     rule: "process: (a) every intensity vector over {1,2,3} of length <= L (quick 4, thorough 7) on a fixed m/z grid x every \
            max_peaks 0..=L+1, deisotope off (ties everywhere); (b) random spectra, n in 0..60 (sometimes up to 400 / 2000), \
@@ -18,6 +22,13 @@ pub const INFO: Info = Info {
            0 / below / on a cluster member / inside / above the cluster; (d) directed: empty, one peak, index-0 parent (the \
            `j == 0` break), equal-key entries with different charge (unstable-sort tie).  deiso: the cluster spectra of (c) \
            with max_charge in 0..6, ppm in {0,5,10,20}, the same min_mz placements, plus a few unsorted arrays. \
+           (e) directed single-line-change cases: exact equality in both `<=` tests (ppm 0, representable x + NEUTRON/z), \
+           tie-break of the deisotope sort, charge-loop bound x precursor charge none/0..5 x max_charge 0..5 x ppm 5/10, heap \
+           shapes n = k+1..k+3 for k 1..8; (f) non-finite stream (quick too): NaN (canonical quiet), +-inf, -0.0, negative, \
+           subnormal, MAX in m/z and/or intensity, min_mz, ppm, through procfull / deiso / procims; (g) process_with_mobility: \
+           mobility array same / shorter / longer / missing, wrong level.  procfull carries every RawSpectrum field (id, file_id, \
+           times, parser TIC, 0-3 precursors with intensity / charge / spectrum_ref / isolation window / ion mobility) and the \
+           reply every ProcessedSpectrum field. \
            non-trivial = at least 2 peaks (process) / at least one cluster (deiso); distinct by request line",
     serial: false,
 };
@@ -31,6 +42,86 @@ struct Spec {
     centroid: bool,
     charge: Option<u8>,
     peaks: Vec<(f32, f32)>,
+    /// seed of the pass-through fields (id, file_id, times, raw TIC, extra precursors, precursor details)
+    meta: u64,
+    /// `RawSpectrum::mobility`
+    mobility: Option<Vec<f32>>,
+}
+
+fn opt_f32(o: &mut Out, x: Option<f32>) {
+    match x {
+        None => {
+            o.n(0);
+        }
+        Some(v) => {
+            o.n(1).f32(v);
+        }
+    }
+}
+
+/// the `<raw>` part of a `procfull` / `procims` request; pass-through fields derived from `s.meta`
+fn raw_tokens(o: &mut Out, s: &Spec) {
+    let mut r = Rng::new(s.meta);
+    let file_id = r.below(1000);
+    let id: String = match r.below(4) {
+        0 => String::new(),
+        1 => "controllerType=0 controllerNumber=1 scan=4711".into(),
+        _ => format!("scan={}", r.below(100000)),
+    };
+    // distinct values so that swapped fields are seen
+    let sst = 1.0 + (r.below(9000) as f32) * 0.01;
+    let iit = 100.5 + (r.below(900) as f32) * 0.25;
+    let raw_tic = *r.pick(&[0.0f32, 12345.0, -1.0]);
+    o.n(file_id).n(s.level).s(&id).b(s.centroid).f32(sst).f32(iit).f32(raw_tic);
+    // precursors: the first one carries `s.charge`; none at all is possible when the charge is absent
+    let np = if s.charge.is_none() && r.chance(1, 2) { 0 } else { 1 + r.below(3) };
+    o.n(np);
+    for ix in 0..np {
+        let charge: Option<u8> = if ix == 0 { s.charge } else { Some(1 + ((s.charge.unwrap_or(3) as usize + ix) % 5) as u8) };
+        o.f32(400.0 + (r.below(6000) as f32) * 0.1);
+        opt_f32(o, if r.chance(1, 2) { Some((r.below(100000) as f32) * 1.5) } else { None });
+        match charge {
+            None => {
+                o.n(0);
+            }
+            Some(z) => {
+                o.n(1).n(z);
+            }
+        }
+        if r.chance(1, 2) {
+            o.n(1).s(&format!("scan={}", r.below(5000)));
+        } else {
+            o.n(0);
+        }
+        if r.chance(1, 2) {
+            o.n(1).n(r.below(3)).f32(-(r.below(30) as f32) * 0.5).f32((r.below(30) as f32) * 0.5 + 0.25);
+        } else {
+            o.n(0);
+        }
+        opt_f32(o, if r.chance(1, 3) { Some(0.6 + (r.below(100) as f32) * 0.01) } else { None });
+    }
+    o.n(s.peaks.len());
+    for &(m, i) in &s.peaks {
+        o.f32(m).f32(i);
+    }
+    match &s.mobility {
+        None => {
+            o.n(0);
+        }
+        Some(m) => {
+            o.n(1).n(m.len());
+            for &x in m {
+                o.f32(x);
+            }
+        }
+    }
+}
+
+fn req_full(op: &str, s: &Spec) -> String {
+    let mut o = Out::new();
+    o.raw(op).n(s.k).b(s.deiso).f32(s.min_mz);
+    raw_tokens(&mut o, s);
+    o.finish()
 }
 
 fn req_process(s: &Spec) -> String {
@@ -164,7 +255,8 @@ fn emit_process(emit: &mut dyn FnMut(Case), s: &Spec, tag: &'static str, extra: 
     let mut ints: Vec<u32> = s.peaks.iter().map(|p| p.1.to_bits()).collect();
     ints.sort();
     let has_ties = ints.windows(2).any(|w| w[0] == w[1]);
-    let mut c = Case::new(req_process(s))
+    let req = if tag == "small-scope" { req_process(s) } else { req_full("procfull", s) };
+    let mut c = Case::new(req)
         .tag(tag)
         .tag_if(n == 0, "empty")
         .tag_if(n == 1, "one-peak")
@@ -187,7 +279,7 @@ fn emit_process(emit: &mut dyn FnMut(Case), s: &Spec, tag: &'static str, extra: 
 
 pub fn gen(rng: &mut Rng, tier: Tier, emit: &mut dyn FnMut(Case)) {
     let quick = tier == Tier::Quick;
-    let base = Spec { k: 0, deiso: false, min_mz: 0.0, level: 2, centroid: true, charge: Some(2), peaks: vec![] };
+    let base = Spec { k: 0, deiso: false, min_mz: 0.0, level: 2, centroid: true, charge: Some(2), peaks: vec![], meta: 0, mobility: None };
 
     // (d) directed
     for &deiso in &[false, true] {
@@ -279,7 +371,7 @@ pub fn gen(rng: &mut Rng, tier: Tier, emit: &mut dyn FnMut(Case)) {
         let charge = if rng.chance(1, 4) { None } else { Some(rng.below(7) as u8) };
         let centroid = !rng.chance(1, 25);
         let min_mz = *rng.pick(&[0.0f32, 150.0, 500.0, 3000.0]);
-        emit_process(emit, &Spec { k, deiso, min_mz, level, centroid, charge, peaks }, "random", None);
+        emit_process(emit, &Spec { k, deiso, min_mz, level, centroid, charge, peaks, meta: rng.next(), mobility: None }, "random", None);
     }
 
     // (c) isotope clusters, through both ops
@@ -300,7 +392,7 @@ pub fn gen(rng: &mut Rng, tier: Tier, emit: &mut dyn FnMut(Case)) {
             let level = if rng.chance(1, 10) { 1 } else { 2 };
             emit_process(
                 emit,
-                &Spec { k, deiso, min_mz, level, centroid: true, charge, peaks },
+                &Spec { k, deiso, min_mz, level, centroid: true, charge, peaks, meta: rng.next(), mobility: None },
                 "clusters",
                 Some(if unsorted { "unsorted-mz" } else { mtag }),
             );
@@ -316,10 +408,289 @@ pub fn gen(rng: &mut Rng, tier: Tier, emit: &mut dyn FnMut(Case)) {
             );
         }
     }
+    // (e) directed cases aimed at single-line changes of the code (see the mutant list in the report)
+    {
+        // exact equality in both `<=` tests of `deisotope`: 1.0 + NEUTRON is exact in f32, so delta == NEUTRON/1 and,
+        // with ppm = 0, |delta - iso| == tol == 0 and delta == NEUTRON + tol
+        let p = vec![(0.5f32, 1.0f32), (1.0, 100.0), (1.0 + NEUTRON, 50.0)];
+        debug_assert!(p[2].0 - p[1].0 == NEUTRON);
+        for maxz in [1u8, 2, 3] {
+            emit(Case::new(req_deiso(maxz, 0.0, 0.0, &p)).tag("directed").tag("exact-tolerance-equality"));
+        }
+        // more exact-equality pairs: x + NEUTRON/z is representable and the difference is exact
+        for &(x, z) in &[(1.5f32, 1u32), (2.0, 1), (2.5, 1), (0.5, 2), (0.25, 2), (0.75, 2)] {
+            let iso = NEUTRON / z as f32;
+            let q = vec![(x * 0.5, 1.0f32), (x, 100.0), (x + iso, 50.0)];
+            if q[2].0 - q[1].0 == iso {
+                for maxz in [1u8, 2, 3] {
+                    emit(Case::new(req_deiso(maxz, 0.0, 0.0, &q)).tag("directed").tag("exact-tolerance-equality"));
+                }
+                // chain of two so that the parent is not index 0 only
+                let q2 = vec![(x * 0.25, 1.0f32), (x * 0.5, 2.0), (x, 100.0), (x + iso, 50.0)];
+                emit(Case::new(req_deiso(2, 0.0, 0.0, &q2)).tag("directed").tag("exact-tolerance-equality"));
+            }
+        }
+        // min_mz exactly on the parent / the isotope
+        emit(Case::new(req_deiso(1, 0.0, 1.0, &p)).tag("directed").tag("exact-tolerance-equality"));
+        emit(Case::new(req_deiso(1, 0.0, f32::from_bits(1.0f32.to_bits() + 1), &p)).tag("directed").tag("exact-tolerance-equality"));
+        // tie-break of the deisotope branch's sort: equal intensities, distinct m/z, no isotopes; cut at every k
+        let t: Vec<(f32, f32)> = vec![(700.0, 5.0), (300.0, 5.0), (500.0, 5.0), (100.0, 9.0), (900.0, 5.0), (200.0, 1.0)];
+        let mut ts = t.clone();
+        ts.sort_by(|a, b| a.0.total_cmp(&b.0));
+        for k in 0..=7usize {
+            emit_process(emit, &Spec { k, deiso: true, peaks: ts.clone(), ..base.clone() }, "directed", Some("deiso-tiebreak"));
+            emit_process(emit, &Spec { k, deiso: false, peaks: t.clone(), ..base.clone() }, "directed", Some("plain-tiebreak"));
+        }
+        // charge loop bound / default charge 3 / first-vs-last precursor: one clean cluster per charge 1..=4
+        for z in 1..=4u32 {
+            let iso = NEUTRON / z as f32;
+            let c: Vec<(f32, f32)> = vec![(300.0, 3.0), (600.0, 100.0), (600.0 + iso, 60.0), (600.0 + 2.0 * iso, 30.0), (900.0, 2.0)];
+            for maxz in 0..=5u8 {
+                emit(Case::new(req_deiso(maxz, 10.0, 0.0, &c)).tag("directed").tag("charge-bound"));
+                emit(Case::new(req_deiso(maxz, 5.0, 0.0, &c)).tag("directed").tag("charge-bound"));
+            }
+            for charge in [None, Some(0u8), Some(1), Some(2), Some(3), Some(4), Some(5)] {
+                for meta in 0..3u64 {
+                    emit_process(emit, &Spec { k: 10, deiso: true, charge, peaks: c.clone(), meta, ..base.clone() }, "directed", Some("charge-bound"));
+                }
+            }
+        }
+        // heap shapes: n just above k for k = 1..=8 (every sift depth), descending / ascending / organ-pipe intensities
+        for k in 1..=8usize {
+            for extra in 1..=3usize {
+                let n = k + extra;
+                for shape in 0..3 {
+                    let peaks: Vec<(f32, f32)> = (0..n)
+                        .map(|i| {
+                            let v = match shape {
+                                0 => (n - i) as f32,
+                                1 => (i + 1) as f32,
+                                _ => (if i % 2 == 0 { i } else { n - i }) as f32 + 0.5,
+                            };
+                            (100.0 + 10.0 * i as f32, v)
+                        })
+                        .collect();
+                    emit_process(emit, &Spec { k, peaks, ..base.clone() }, "directed", Some("heap-shapes"));
+                }
+            }
+        }
+    }
+
+    // (f) non-finite / non-positive values as the parsers may deliver them (NaN, +-inf, -0.0, negative, subnormal, MAX)
+    //     flavour A: canonical quiet NaN (0x7fc00000) and +inf next to ordinary values (no -inf: every NaN in play has
+    //     the same payload, so the result does not depend on which operand x86 propagates);
+    //     flavour B: +-inf, negative, -0.0, subnormal, MAX without NaN inputs (the only NaN is the hardware default);
+    //     intensities never get -inf / -MAX, so no `inf + -inf` can enter an OUTPUT value: x86 would produce the
+    //     negative default NaN, which `total_cmp` orders first, and Lean cannot observe the sign of a NaN
+    //     (`Float32.toBits` canonicalises) - the model is faithful up to NaN sign/payload only
+    let nhost = if quick { 500 } else { 40000 };
+    for it in 0..nhost {
+        let flavour_a = it % 2 == 0;
+        let specials: &[u32] = if flavour_a {
+            &[0x7fc0_0000, 0x7fc0_0000, 0x7f80_0000, 0x0000_0000, 0x7f7f_ffff]
+        } else {
+            &[0x7f80_0000, 0xff80_0000, 0x8000_0000, 0x0000_0000, 0xc2c8_0000, 0xbf80_0000, 0x0000_0001, 0x7f7f_ffff, 0xff7f_ffff]
+        };
+        let n = 1 + rng.below(if it % 25 == 0 { 120 } else { 14 });
+        let (mut peaks, members) = if rng.chance(1, 2) { cluster_spectrum(rng, false) } else { (random_peaks(rng, n), vec![]) };
+        let int_specials: &[u32] = if flavour_a {
+            specials
+        } else {
+            &[0x7f80_0000, 0x8000_0000, 0x0000_0000, 0xc2c8_0000, 0xbf80_0000, 0x0000_0001, 0x7f7f_ffff]
+        };
+        let where_ = rng.below(3); // 0: m/z, 1: intensity, 2: both
+        let hits = 1 + rng.below(3);
+        for _ in 0..hits {
+            if peaks.is_empty() {
+                break;
+            }
+            let ix = rng.below(peaks.len());
+            let v = f32::from_bits(*rng.pick(specials));
+            if where_ != 1 {
+                peaks[ix].0 = v;
+            }
+            if where_ != 0 {
+                let w = f32::from_bits(*rng.pick(int_specials));
+                peaks[ix].1 = w;
+            }
+        }
+        if rng.chance(1, 2) {
+            peaks.sort_by(|a, b| a.0.total_cmp(&b.0));
+        }
+        let n = peaks.len();
+        let min_mz = if rng.chance(1, 4) { f32::from_bits(*rng.pick(specials)) } else { pick_min_mz(rng, &peaks, &members).0 };
+        match it % 5 {
+            0 | 1 => {
+                let k = pick_k(rng, n);
+                let deiso = rng.chance(1, 2);
+                let charge = if rng.chance(1, 4) { None } else { Some(rng.below(5) as u8) };
+                let level = if rng.chance(1, 6) { 1 } else { 2 };
+                emit_process(
+                    emit,
+                    &Spec { k, deiso, min_mz, level, centroid: true, charge, peaks, meta: rng.next(), mobility: None },
+                    "non-finite",
+                    Some(if flavour_a { "nan-inf" } else { "neg-inf-zero" }),
+                );
+            }
+            2 | 3 => {
+                let maxz = *rng.pick(&[1u8, 2, 3, 4]);
+                let ppm = if rng.chance(1, 8) { f32::from_bits(*rng.pick(specials)) } else { 10.0 };
+                emit(
+                    Case::new(req_deiso(maxz, ppm, min_mz, &peaks))
+                        .tag("non-finite")
+                        .tag(if flavour_a { "nan-inf" } else { "neg-inf-zero" }),
+                );
+            }
+            _ => {
+                let mob: Vec<f32> = (0..n).map(|_| if rng.chance(1, 5) { f32::from_bits(*rng.pick(specials)) } else { 0.5 + rng.unit() as f32 }).collect();
+                let s = Spec { k: 5, deiso: false, min_mz, level: 1, centroid: true, charge: None, peaks, meta: rng.next(), mobility: Some(mob) };
+                emit(Case::new(req_full("procims", &s)).tag("non-finite").tag("ims"));
+            }
+        }
+    }
+
+    // (g) `process_with_mobility`: MS1 with a mobility array of the same / shorter / longer length; wrong level and a
+    //     missing mobility array are the two asserted preconditions (panic)
+    let nims = if quick { 150 } else { 5000 };
+    for _ in 0..nims {
+        let n = rng.below(30);
+        let peaks = random_peaks(rng, n);
+        let mlen = match rng.below(6) {
+            0 => n.saturating_sub(1 + rng.below(3)),
+            1 => n + 1 + rng.below(3),
+            _ => n,
+        };
+        let mobility = if rng.chance(1, 12) { None } else { Some((0..mlen).map(|_| 0.5 + (rng.below(1000) as f32) * 0.001).collect::<Vec<f32>>()) };
+        let level = if rng.chance(1, 12) { 2 } else { 1 };
+        let s = Spec { k: rng.below(5), deiso: rng.chance(1, 2), min_mz: 0.0, level, centroid: !rng.chance(1, 10), charge: None, peaks, meta: rng.next(), mobility };
+        let pre = level != 1 || s.mobility.is_none();
+        emit(
+            Case::new(req_full("procims", &s))
+                .tag("ims")
+                .tag_if(pre, "ims-precondition")
+                .tag_if(mlen != n, "ims-length-mismatch")
+                .nontrivial(n >= 2 && !pre),
+        );
+    }
+}
+
+fn parse_opt_f32(t: &mut Toks) -> Option<Option<f32>> {
+    t.opt(|t| t.f32())
+}
+
+/// parse `<raw>` into a RawSpectrum
+fn parse_raw(t: &mut Toks) -> Option<RawSpectrum> {
+    let file_id = t.usize()?;
+    let level = t.usize()? as u8;
+    let id = t.string()?;
+    let centroid = t.bool()?;
+    let sst = t.f32()?;
+    let iit = t.f32()?;
+    let raw_tic = t.f32()?;
+    let precursors = t.list(|t| {
+        let mz = t.f32()?;
+        let intensity = parse_opt_f32(t)?;
+        let charge = t.opt(|t| t.usize())?.map(|z| z as u8);
+        let spectrum_ref = t.opt(|t| t.string())?;
+        let isolation_window = t.opt(|t| {
+            let k = t.usize()?;
+            let lo = t.f32()?;
+            let hi = t.f32()?;
+            Some(match k {
+                0 => Tolerance::Ppm(lo, hi),
+                1 => Tolerance::Pct(lo, hi),
+                _ => Tolerance::Da(lo, hi),
+            })
+        })?;
+        let inverse_ion_mobility = parse_opt_f32(t)?;
+        Some(Precursor { mz, intensity, charge, spectrum_ref, isolation_window, inverse_ion_mobility })
+    })?;
+    let peaks = t.list(|t| Some((t.f32()?, t.f32()?)))?;
+    let mobility = t.opt(|t| t.list(|t| t.f32()))?;
+    let mut raw = RawSpectrum::default_with_file_id(file_id);
+    raw.ms_level = level;
+    raw.id = id;
+    raw.representation = if centroid { Representation::Centroid } else { Representation::Profile };
+    raw.scan_start_time = sst;
+    raw.ion_injection_time = iit;
+    raw.total_ion_current = raw_tic;
+    raw.precursors = precursors;
+    raw.mz = peaks.iter().map(|p| p.0).collect();
+    raw.intensity = peaks.iter().map(|p| p.1).collect();
+    raw.mobility = mobility;
+    Some(raw)
+}
+
+fn out_meta(o: &mut Out, level: u8, id: &str, file_id: usize, sst: f32, iit: f32, precursors: &[Precursor]) {
+    o.n(level).s(id).n(file_id).f32(sst).f32(iit).n(precursors.len());
+    for p in precursors {
+        o.f32(p.mz);
+        opt_f32(o, p.intensity);
+        match p.charge {
+            None => {
+                o.n(0);
+            }
+            Some(z) => {
+                o.n(1).n(z);
+            }
+        }
+        match &p.spectrum_ref {
+            None => {
+                o.n(0);
+            }
+            Some(r) => {
+                o.n(1).s(r);
+            }
+        }
+        match p.isolation_window {
+            None => {
+                o.n(0);
+            }
+            Some(Tolerance::Ppm(lo, hi)) => {
+                o.n(1).n(0).f32(lo).f32(hi);
+            }
+            Some(Tolerance::Pct(lo, hi)) => {
+                o.n(1).n(1).f32(lo).f32(hi);
+            }
+            Some(Tolerance::Da(lo, hi)) => {
+                o.n(1).n(2).f32(lo).f32(hi);
+            }
+        }
+        opt_f32(o, p.inverse_ion_mobility);
+    }
 }
 
 pub fn exec(op: &str, t: &mut Toks) -> Option<String> {
     match op {
+        "procfull" | "procims" => {
+            let k = t.usize()?;
+            let deiso = t.bool()?;
+            let min_mz = t.f32()?;
+            let raw = parse_raw(t)?;
+            if !t.done() {
+                return None;
+            }
+            let sp = SpectrumProcessor::new(k, deiso, min_mz);
+            let mut o = Out::new();
+            if op == "procfull" {
+                let out = sp.process(raw);
+                out_meta(&mut o, out.level, &out.id, out.file_id, out.scan_start_time, out.ion_injection_time, &out.precursors);
+                o.n(out.peaks.len());
+                for p in &out.peaks {
+                    o.f32(p.mass).f32(p.intensity);
+                }
+                o.f32(out.total_ion_current);
+            } else {
+                let out = sp.process_with_mobility(raw);
+                out_meta(&mut o, out.level, &out.id, out.file_id, out.scan_start_time, out.ion_injection_time, &out.precursors);
+                o.n(out.peaks.len());
+                for p in &out.peaks {
+                    o.f32(p.mass).f32(p.intensity).f32(p.mobility);
+                }
+                o.f32(out.total_ion_current);
+            }
+            Some(o.finish())
+        }
         "process" => {
             let k = t.usize()?;
             let deiso = t.bool()?;
